@@ -6,6 +6,9 @@ import SparseSpace.Drive.Util
     der  <spec> <x>                 → first derivative
     int  <spec> <a> <b> <c> <w>     → get_integral(a,b,c,w)
     hk   <p> <0|1> <xs> <levels>    → x:knots:index;…  (knot selection of the hierarchical Lagrange grids) | assert
+    tk   <p> <xs> <levels>          → the same from the refinement-TREE recursion (`RTree.ofPoints`, `RTree.grid`), points in
+                                      increasing order | no-tree   (the theorems `collocation_unitriangular`,
+                                      `hier_lagrange_solvable` speak about this construction)
     reset                           → ok
     dim  <xs> <spec;spec;…>         → ok      (appends a dimension: coordinates and its basis objects)
     colloc <d>                      → rows `a,b;c,d`
@@ -67,6 +70,18 @@ def step (s : St) (line : String) : St × String :=
       | none => (s, "assert")
       | some r => (s, ";".intercalate (r.map fun q => s!"{fmtRat q.1}:{fmtV q.2.1}:{q.2.2}"))
     | _, _, _, _ => (s, "bad-op")
+  | ["tk", p, xs, ls] =>
+    match parseNat? p, parseRatVec? xs, parseVec? ls with
+    | some p, some xs, some ls =>
+      if xs.length != ls.length || ls.any (· < 0) || p == 0 || xs.length < 2 then (s, "bad-op") else
+      let pts := List.zip xs (ls.map Int.toNat)
+      let a := xs.headD 0
+      let b := xs.getLastD 0
+      if pts.head?.map (·.2) != some 0 || pts.getLast?.map (·.2) != some 0 then (s, "no-tree") else
+      match RTree.ofPoints xs.length ((pts.drop 1).dropLast) a b 0 with
+      | none => (s, "no-tree")
+      | some t => (s, ";".intercalate ((t.grid p a b).map fun e => s!"{fmtRat e.x}:{fmtV e.knots}:{e.idx}"))
+    | _, _, _ => (s, "bad-op")
   | ["reset"] => ({ dims := [] }, "ok")
   | ["dim", xs, specs] =>
     match parseRatVec? xs, (specs.splitOn ";").mapM parseSpec? with
